@@ -121,6 +121,18 @@ func (h *history) key(k string) string {
 	return "initchain-loadvalidators-differs-from-in-force"
 }
 
+// rotKey is the key for "the set / the proposer of a round is not what the
+// reference rotation prescribes" in the family the chain belongs to.
+func (h *history) rotKey() string {
+	switch h.family {
+	case "initchain":
+		return "initchain-valset-rotation-differs"
+	case "statesync":
+		return "statesync-bootstrap-state-differs-from-reference"
+	}
+	return "rotation-priorities-differ"
+}
+
 func toABCI(pm map[string]ident, b []ref.RChange) []abci.ValidatorUpdate {
 	out := make([]abci.ValidatorUpdate, len(b))
 	for i, ch := range b {
